@@ -2,7 +2,7 @@
 from harness import tcpgen as G
 
 RULE = ("databases of 1-12 records around one wire packet: each record is exact / fuzzy-TTL / fuzzy-quirk / non-matching x "
-        "generic/specific x class '!'/other, shuffled, in both sections (the other direction's section is seeded with a specific "
+        "generic/specific x class '!'/other, shuffled, in both sections, a third of the files re-opening a section later (the other direction's section is seeded with a specific "
         "exact match); observable (line number, match type, distance) of fingerprint_tcp through the public API on real bytes; "
         "non-trivial = the model returns a match; plus guess_distance on all 256 TTLs")
 GEN_TIE = True     # the anchored decision functions are also TRANSLATED from /repo's source on every run and proved equal to the model
@@ -19,9 +19,12 @@ def make_db(R, p, md, ty):
     other = "response" if ty == 2 else "request"
     order = [mine, other]
     R.shuffle(order)
+    if R.random() < 0.35:                       # a section header may occur more than once: its records accumulate in file order
+        order = order + [R.choice(order) for _ in range(R.randint(1, 2))]
+    reopened = len(order) > 2
     for sec in order:
         lines.append("[tcp:%s]" % sec)
-        n = R.randint(1, 12) if sec == mine else R.randint(1, 2)
+        n = R.randint(1, 5 if reopened else 12) if sec == mine else R.randint(1, 2)
         kinds = []
         if sec == mine:
             style = R.randrange(6)
